@@ -34,7 +34,7 @@ Definition srefutes (d : sysdef) (inv : state -> bool) (s0 : state) (tr : list (
 
 (* ------------------------------------------------------------------ initial states *)
 Definition sh0 : shared :=
-  mkShared false false false false false 0 false false DNone DNone 0 false false DNone
+  mkShared false false false false false 0 false false DNone DNone 0 false false DNone false
            false false false false false.
 Definition th0 (f : proc) : thread := mkThread f PEntry no_loc false false.
 Definition st0 (fs : list proc) : state := mkState sh0 (map th0 fs) 0.
@@ -85,7 +85,7 @@ Definition wake_pending (t : thread) (s : shared) : bool :=
   match fn t with
   | FRead => rtok s
   | FWriteBuffers => wtok s
-  | FAcceptKCP => negb (Nat.eqb (accepts s) 0)
+  | FAcceptKCP => negb (Nat.eqb (accepts s) 0) || ltok s   (* a queued session, or the deadline-change token *)
   | _ => false
   end.
 Definition dl_of (t : thread) (s : shared) : dlv :=
@@ -254,7 +254,7 @@ Definition env_write_tm : list label :=
   [LInput 0 false; LInput 0 true; LUpdate; LSetWD DNone; LSetWD DFuture; LSetWD DPast; LClose; LWErr;
    LTick WD; LStealW; LTakeRoom] ++ env_timer 1.
 Definition env_accept_tm : list label :=
-  [LArrive; LLSetRD DNone; LLSetRD DFuture; LLSetRD DPast; LLClose; LLErr; LTick LRD; LStealAccept]
+  [LArrive; LLSetRD DNone; LLSetRD DFuture; LLSetRD DPast; LLClose; LLErr; LTick LRD; LStealAccept; LStealL]
   ++ env_timer 1.
 
 (* closed systems: one caller, nobody else consumes; the call may be repeated *)
@@ -283,7 +283,7 @@ Definition env_write_rearm : list label :=
 (* the three refuted deadline sequences, smallest environments *)
 Definition env_read_dl : list label := [LSetRD DNone; LSetRD DFuture; LTick RD] ++ env_timer 1.
 Definition env_write_dl : list label := [LSetWD DNone; LSetWD DFuture; LTick WD] ++ env_timer 1.
-Definition env_accept_dl : list label := [LLSetRD DFuture; LTick LRD] ++ env_timer 1.
+Definition env_accept_dl : list label := [LLSetRD DNone; LLSetRD DFuture; LTick LRD] ++ env_timer 1.
 
 (* products of identical callers *)
 Definition env_read_n (n : nat) : list label :=
@@ -326,14 +326,14 @@ Definition sys_1d (prog : proc -> list stmt) (c : caller) (async : bool) : sysde
         [st0 [fn_of c]].
 
 (* a deadline is stored before the call and is only ever replaced by another deadline
-   (later, earlier, already past), never cleared; for Accept: stored before the call, unchanged *)
+   (later, earlier, already past), never cleared *)
 Definition sys_rearm (prog : proc -> list stmt) (c : caller) (async : bool) : sysdef :=
   match c with
   | Reader => mkSys async 2 prog false env_read_rearm
                     [st_with (sh_rd DFuture) [FRead]; st_with (sh_rd DPast) [FRead]]
   | Writer => mkSys async 2 prog false env_write_rearm
                     [st_with (sh_wd DFuture) [FWriteBuffers]; st_with (sh_wd DPast) [FWriteBuffers]]
-  | Accepter => mkSys async 2 prog false ([LArrive; LLClose; LLErr; LTick LRD] ++ env_timer 1 ++ env_recall 1)
+  | Accepter => mkSys async 2 prog false ([LArrive; LLSetRD DFuture; LLSetRD DPast; LLClose; LLErr; LTick LRD] ++ env_timer 1 ++ env_recall 1)
                     [st_with (set_lrd DFuture sh0) [FAcceptKCP]; st_with (set_lrd DPast sh0) [FAcceptKCP]]
   end.
 
@@ -353,6 +353,8 @@ Definition sys_extend_n (prog : proc -> list stmt) (c : caller) (n : nat) (async
   match c with
   | Writer => mkSys async 1 prog false ([LSetWD DFuture; LTick WD] ++ env_timer n)
                     [st_with (sh_wd DFuture) (rep n FWriteBuffers)]
+  | Accepter => mkSys async 1 prog false ([LLSetRD DFuture; LTick LRD] ++ env_timer n)
+                      [st_with (set_lrd DFuture sh0) (rep n FAcceptKCP)]
   | _ => mkSys async 1 prog false ([LSetRD DFuture; LTick RD] ++ env_timer n)
                [st_with (sh_rd DFuture) (rep n FRead)]
   end.
@@ -374,7 +376,7 @@ Definition tm_inv (d : sysdef) : state -> bool :=
 Definition one_inv (c : caller) (d : sysdef) : state -> bool :=
   inv_and ([inv_ok; inv_single d; inv_read_drains; inv_write_after_close; inv_second_close d (close_fn c);
             inv_close_wakes d; inv_error_wakes d]
-           ++ match c with Accepter => [] | _ => [inv_cleared d; inv_no_early_quiet d] end).
+           ++ [inv_cleared d; inv_no_early_quiet d]).
 Definition oned_inv (d : sysdef) : state -> bool := inv_and [inv_ok; inv_single d; inv_cleared d].
 Definition rearm_inv (d : sysdef) : state -> bool :=
   inv_and [inv_ok; inv_deadline_seen d; inv_expiry_wakes d].
